@@ -47,3 +47,37 @@ Fixpoint path_rel (fs : fsys) (dotglob : bool) (parts : list str) (m p : str) : 
       exists m', step_rel fs dotglob part (match rest with [] => false | _ => true end) m m' /\
                  path_rel fs dotglob rest m' p
   end.
+
+(* ------------------------------------------------------------------ "**" (globstar) *)
+
+(* names "**" descends through / yields: not starting with a dot unless dotglob *)
+Definition star_ok (dotglob : bool) (n : str) : Prop :=
+  dotglob = true \/ exists c r, n = c :: r /\ c <> DOT.
+
+(* c is an entry of directory d that "**" may yield (a directory when more components follow) *)
+Definition gs_child (fs : fsys) (dotglob want_dir : bool) (d c : str) : Prop :=
+  exists ents e, read_dir fs d = inr ents /\ In e ents /\
+    (want_dir = true -> entry_is_dir fs d e) /\ star_ok dotglob (fst e) /\ c = path_join2 d (fst e).
+
+(* zero or more levels below d *)
+Inductive gs_desc (fs : fsys) (dotglob want_dir : bool) : str -> str -> Prop :=
+| gd_refl : forall d, gs_desc fs dotglob want_dir d d
+| gd_step : forall d c p, gs_child fs dotglob want_dir d c -> gs_desc fs dotglob want_dir c p ->
+            gs_desc fs dotglob want_dir d p.
+
+Definition step_rel_gs (fs : fsys) (o : gopts) (part : str) (want_dir : bool) (m m' : str) : Prop :=
+  if str_eqb part [42; 42] && o_star o
+  then gs_desc fs (o_dot o) want_dir (path_join2 m []) m'       (* "a/**" starts at "a/" *)
+  else step_rel fs (o_dot o) part want_dir m m'.
+
+Fixpoint path_rel_gs (fs : fsys) (o : gopts) (parts : list str) (m p : str) : Prop :=
+  match parts with
+  | [] => p = m
+  | part :: rest =>
+      exists m', step_rel_gs fs o part (match rest with [] => false | _ => true end) m m' /\
+                 path_rel_gs fs o rest m' p
+  end.
+
+(* a file system on which ReadDir2 never reports a symbolic link *)
+Definition no_symlinks (fs : fsys) : Prop :=
+  forall d ents e, read_dir fs d = inr ents -> In e ents -> match snd e with KLink _ => False | _ => True end.
